@@ -411,6 +411,16 @@ def op_legacy_sig(req, trace):
     try:
         v = Version.objects.current_version(using=db)
         data = v.signature.serialize(sig_version=1)
+        if (req.get('args') or {}).get('unapplied_unique_together'):
+            # a database last touched by Django Evolution < 0.7: the
+            # unique_together of its models was recorded but never applied
+            for app_label, models_ in data.items():
+                if app_label == '__version__':
+                    continue
+                for model_sig in models_.values():
+                    meta = model_sig.get('meta') or {}
+                    if meta.get('unique_together'):
+                        meta['__unique_together_applied'] = False
         text = pickle_dumps(data)
         with connections[db].cursor() as cur:
             cur.execute('UPDATE django_project_version SET signature = %s '
